@@ -89,6 +89,14 @@ def check(tier):
     rep = Report(PROP, tier)
     cfg = config(tier)
     e1.run(cfg, rep)
+    # a narrow stack-discipline alphabet two levels deeper (marks, pops, memo traffic, slice opcodes)
+    from .c03 import _fold
+
+    rep2 = Report(PROP, tier)
+    narrow = alphabet("K1 ELIST EDICT ESET MARK TUPLE LIST DICT FROZENSET APPENDS SETITEMS ADDITEMS POP POP_MARK DUP MEMOIZE BINGET0".split())
+    cfg2 = e1.Config(PROP, narrow, cfg.depth + 2, [step_invariant], [trace_oracle], split=2)
+    e1.run(cfg2, rep2)
+    _fold(rep, rep2, "narrow")
     from . import c09_corpus
 
     c09_corpus.run(rep, tier)
